@@ -824,11 +824,12 @@ func run(c *core.Ctx) {
 	n := 0
 	for si, sb := range subs {
 		for di, d := range valid {
-			for ei, de := range destExts {
-				// convert: every (source, destination) pair; other sub-commands: a rotation giving each >= 6 pairs
-				if sb.name != "convert" && c.Tier == core.Quick && (di+ei+si)%4 != 0 && !(sb.name == "merge" && d.Format == "ts" && ei < 2) {
-					continue
-				}
+			des := destExts
+			if sb.name == "convert" || sb.name == "optimize" {
+				des = append(append([]string{}, destExts...), ".SRT", ".TtMl", ".Ass")
+			}
+			for ei, de := range des {
+				_, _, _ = di, ei, si // every sub-command on every (source, destination) pair in both tiers
 				n++
 				if !c.Mine() {
 					continue
@@ -941,7 +942,7 @@ func replay(sub string, raw json.RawMessage) (string, bool) {
 func init() {
 	core.Register(&core.Prop{
 		ID: "C07", Level: "model_checking",
-		Rule: "(i) every readable corpus document x every destination extension through OpenFile + Write on real files (plus upper/mixed-case extensions x 5 file-name shapes - further dots in the base name or in a directory, another format's extension earlier in the name, leading dot, blank - and invalid extensions incl. a known one that is not last); (ii) explicit-state search: states = canonical cue lists reached from a source document by operation sequences over an 11-letter alphabet (sync +-1.5s / -inf, fragment 700ms / 2s, unfragment, merge, optimize, 2 linear corrections, order), deduplicated; every transition executed by the real operation and compared with the composed reference specifications of C09-C15; every reached state written to all five writers and read back; (iii) the CLI binary built from the tree: every (source, destination) pair under convert, every other sub-command on a rotation of pairs, output compared byte for byte with the library's for the same arguments, plus error exits. Oracle for a conversion: same number of cues in the same order, start/end truncated to the destination resolution (ms; cs for SSA; frame for STL), same text with white space disregarded; ErrNoSubtitlesToWrite for an empty list, ErrInvalidExtension for an unknown extension",
+		Rule: "(i) every readable corpus document x every destination extension through OpenFile + Write on real files (plus upper/mixed-case extensions x 5 file-name shapes - further dots in the base name or in a directory, another format's extension earlier in the name, leading dot, blank - and invalid extensions incl. a known one that is not last); (ii) explicit-state search: states = canonical cue lists reached from a source document by operation sequences over an 11-letter alphabet (sync +-1.5s / -inf, fragment 700ms / 2s, unfragment, merge, optimize, 2 linear corrections, order), deduplicated; every transition executed by the real operation and compared with the composed reference specifications of C09-C15; every reached state written to all five writers and read back; (iii) the CLI binary built from the tree: every (source, destination) pair under every sub-command, output compared byte for byte with the library's for the same arguments, plus error exits. Oracle for a conversion: same number of cues in the same order, start/end truncated to the destination resolution (ms; cs for SSA; frame for STL), same text with white space disregarded; ErrNoSubtitlesToWrite for an empty list, ErrInvalidExtension for an unknown extension",
 		Scope: map[core.Tier]string{
 			core.Quick:    "all valid corpus documents x 6 destinations; source documents of every format x all operation sequences of length <=3 (1464 sequences, deduplicated by canonical state) x 5 writers; CLI: convert on all pairs, other sub-commands on a quarter of the pairs",
 			core.Thorough: "operation sequences of length <=4 (the property's own bound); CLI all sub-commands on all pairs",
